@@ -69,6 +69,13 @@ pub struct StOrd(pub u32);
 pub struct SeUnrel(pub u32);
 #[derive(Event, Serialize, Deserialize, Clone)]
 pub struct SeProbe(pub u32);
+// triggers of the `sys_auth` profile: the first is registered as independent, the others are not
+#[derive(Event, Serialize, Deserialize, Clone)]
+pub struct StPa(pub u32);
+#[derive(Event, Serialize, Deserialize, Clone)]
+pub struct StPb(pub u32);
+#[derive(Event, Serialize, Deserialize, Clone)]
+pub struct StPc(pub u32);
 #[derive(Event, Serialize, Deserialize, Clone)]
 pub struct CeOrd(pub u32);
 #[derive(Event, Serialize, Deserialize, Clone, MapEntities)]
@@ -125,6 +132,8 @@ pub struct Cfg {
     pub wrong: u32,
     /// how those clients differ: 0 one more rule, 1 rules in another order, 2 another priority, 3 only the independence of an event
     pub wrongkind: u32,
+    /// wrap-around cases: `ServerTick` is advanced by this much when the server starts (0: not such a case)
+    pub tickbase: u32,
     /// C06 cases: client 0 is an attacker whose traffic is injected bytes
     pub junk: bool,
     pub events: bool,
@@ -139,7 +148,7 @@ pub struct Cfg {
 impl Cfg {
     fn header(&self, id: u64) -> String {
         format!(
-            "case {id} sys policy={} clients={} track={} sync={} auth={} events={} dedicated={}{}{}",
+            "case {id} sys policy={} clients={} track={} sync={} auth={} events={} dedicated={}{}{}{}",
             if self.whitelist { "white" } else { "black" },
             self.clients,
             self.track as u8,
@@ -148,7 +157,8 @@ impl Cfg {
             self.events as u8,
             self.dedicated as u8,
             if self.junk { " junk=1" } else { "" },
-            if self.wrong != 0 { format!(" wrong={}{}", self.wrong, if self.wrongkind != 0 { format!(" wrongkind={}", self.wrongkind) } else { String::new() }) } else { String::new() }
+            if self.wrong != 0 { format!(" wrong={}{}", self.wrong, if self.wrongkind != 0 { format!(" wrongkind={}", self.wrongkind) } else { String::new() }) } else { String::new() },
+            if self.tickbase != 0 { format!(" tickbase={}", self.tickbase) } else { String::new() }
         )
     }
     fn parse(line: &str) -> Cfg {
@@ -160,6 +170,7 @@ impl Cfg {
         Cfg {
             wrong: get("wrong").parse().unwrap_or(0),
             wrongkind: get("wrongkind").parse().unwrap_or(0),
+            tickbase: get("tickbase").parse().unwrap_or(0),
             junk: get("junk") == "1",
             events: get("events") == "1",
             dedicated: get("dedicated") == "1",
@@ -240,12 +251,17 @@ fn common(app: &mut App, cfg: &Cfg, is_server: bool, wrong: bool) {
     if kind == 0 {
         app.replicate::<N>();
     }
-    if cfg.auth == "check" && !cfg.events {
+    if !cfg.events {
         // an event nobody emits; client and server may disagree only about its independence
         app.add_server_event::<SeProbe>(Channel::Ordered);
         if kind != 3 {
             app.make_event_independent::<SeProbe>();
         }
+        // three triggers (op `probe`); only the first is independent of replication
+        app.add_server_trigger::<StPa>(Channel::Ordered)
+            .add_server_trigger::<StPb>(Channel::Ordered)
+            .add_server_trigger::<StPc>(Channel::Ordered)
+            .make_trigger_independent::<StPa>();
     }
     if cfg.events {
         app.add_server_event::<SeOrd>(Channel::Ordered)
@@ -511,6 +527,10 @@ impl Sys {
                 if !self.running {
                     self.server.world_mut().resource_mut::<RepliconServer>().set_running(true);
                     self.running = true;
+                    if self.cfg.tickbase != 0 {
+                        // a server that has been up for a long time: its tick is about to wrap around
+                        self.server.world_mut().resource_mut::<ServerTick>().bypass_change_detection().increment_by(self.cfg.tickbase);
+                    }
                     writeln!(out, "= ok").unwrap();
                 } else { writeln!(out, "= skip").unwrap(); }
             }
@@ -556,7 +576,8 @@ impl Sys {
                 None => writeln!(out, "= skip").unwrap(),
             },
             "sframe" => {
-                let tick = t[1] == "tick=1";
+                // tick=0: no new tick; tick=K: `ServerTick::increment_by(K)` (manual tick policy)
+                let tick: u32 = t[1]["tick=".len()..].parse().unwrap();
                 let ms: u64 = t.get(2).and_then(|x| x.strip_prefix("ms=")).map(|x| x.parse().unwrap()).unwrap_or(10);
                 self.sframe(tick, ms, out);
             }
@@ -617,6 +638,19 @@ impl Sys {
                 writeln!(out, "= ok").unwrap();
             }
             "flushed" | "flushing" => writeln!(out, "= ok").unwrap(),
+            "probe" if !self.cfg.events => {
+                // probe <id>: broadcast the three triggers of the events-less protocol
+                let id: u32 = t[1].parse().unwrap();
+                if self.server_panicked {
+                    writeln!(out, "= skip").unwrap();
+                } else {
+                    let w = self.server.world_mut();
+                    w.server_trigger(ToClients { mode: SendMode::Broadcast, event: StPa(id) });
+                    w.server_trigger(ToClients { mode: SendMode::Broadcast, event: StPb(id) });
+                    w.server_trigger(ToClients { mode: SendMode::Broadcast, event: StPc(id) });
+                    writeln!(out, "= ok").unwrap();
+                }
+            }
             "sev" if self.cfg.events => {
                 // sev <kind> <id> <mode> [e]
                 let id: u32 = t[2].parse().unwrap();
@@ -749,14 +783,16 @@ impl Sys {
         }
     }
 
-    fn sframe(&mut self, tick: bool, ms: u64, out: &mut dyn Write) {
+    fn sframe(&mut self, tick: u32, ms: u64, out: &mut dyn Write) {
         if self.server_panicked {
             writeln!(out, "= skip").unwrap();
             return;
         }
         self.server.insert_resource(TimeUpdateStrategy::ManualDuration(Duration::from_millis(ms)));
-        if tick && self.running {
+        if tick == 1 && self.running {
             self.server.world_mut().resource_mut::<ServerTick>().increment();
+        } else if tick > 1 && self.running {
+            self.server.world_mut().resource_mut::<ServerTick>().increment_by(tick);
         }
         self.server.world_mut().resource_mut::<ReplRan>().0 = false;
         let junk = std::mem::take(&mut self.junk_bytes);
@@ -972,6 +1008,7 @@ struct Gen {
     buf: Vec<u8>,
     /// `mut` lines issued since the last tick (to repeat them against an exactly fitting size)
     window_muts: Vec<String>,
+    probe_id: u32,
     next_ent: usize,
     next_pre: Vec<usize>,
     val: u32,
@@ -985,20 +1022,21 @@ pub fn generate(opts: &Opts, profile: &str, out: &mut Out) {
         let mut crng = rng.fork();
         if id % nshards != shard { continue; }
         let cfg = match profile {
-            "sys_vis" => Cfg { wrong: 0, wrongkind: 0, junk: false, events: false, dedicated: false, whitelist: crng.chance(1, 2), clients: crng.range(1, 2) as usize, track: false, sync: false, auth: "none".into() },
-            "sys_split" => Cfg { wrong: 0, wrongkind: 0, junk: false, events: false, dedicated: false, whitelist: false, clients: 1, track: crng.chance(1, 3), sync: crng.chance(2, 3), auth: "none".into() },
-            "sys_track" => Cfg { wrong: 0, wrongkind: 0, junk: false, events: false, dedicated: false, whitelist: false, clients: 1, track: true, sync: crng.chance(1, 3), auth: "none".into() },
+            "sys_vis" => Cfg { wrong: 0, wrongkind: 0, tickbase: 0, junk: false, events: false, dedicated: false, whitelist: crng.chance(1, 2), clients: crng.range(1, 2) as usize, track: false, sync: false, auth: "none".into() },
+            "sys_split" => Cfg { wrong: 0, wrongkind: 0, tickbase: 0, junk: false, events: false, dedicated: false, whitelist: false, clients: 1, track: crng.chance(1, 3), sync: crng.chance(2, 3), auth: "none".into() },
+            "sys_track" => Cfg { wrong: 0, wrongkind: 0, tickbase: 0, junk: false, events: false, dedicated: false, whitelist: false, clients: 1, track: true, sync: crng.chance(1, 3), auth: "none".into() },
             "sys_auth" => {
                 let clients = crng.range(1, 3) as usize;
                 let auth: String = (*crng.pick(&["check", "check", "custom", "none"])).into();
                 // under the default protocol check some clients come from different code
                 let wrong = if auth == "check" && crng.chance(1, 2) { (crng.below(1 << clients) as u32).max(1) } else { 0 };
                 let wrongkind = if wrong != 0 { crng.below(4) as u32 } else { 0 };
-                Cfg { wrong, wrongkind, junk: false, events: false, dedicated: false, whitelist: crng.chance(1, 3), clients, track: false, sync: false, auth }
+                Cfg { wrong, wrongkind, tickbase: 0, junk: false, events: false, dedicated: false, whitelist: crng.chance(1, 3), clients, track: false, sync: false, auth }
             }
             "sys_junk" => Cfg {
                 wrong: 0,
                 wrongkind: 0,
+                tickbase: 0,
                 junk: true,
                 events: true,
                 dedicated: crng.chance(1, 4),
@@ -1012,6 +1050,7 @@ pub fn generate(opts: &Opts, profile: &str, out: &mut Out) {
             "sys_evt" => Cfg {
                 wrong: 0,
                 wrongkind: 0,
+                tickbase: 0,
                 junk: false,
                 events: true,
                 dedicated: crng.chance(1, 4),
@@ -1024,6 +1063,7 @@ pub fn generate(opts: &Opts, profile: &str, out: &mut Out) {
             _ => Cfg {
                 wrong: 0,
                 wrongkind: 0,
+                tickbase: 0,
                 junk: false,
                 events: false,
                 dedicated: false,
@@ -1034,10 +1074,18 @@ pub fn generate(opts: &Opts, profile: &str, out: &mut Out) {
                 auth: "none".into(),
             },
         };
+        // profile `sys`: one case in twelve runs a server whose tick wraps around during the case
+        let mut cfg = cfg;
+        if profile == "sys" && id % 12 == 7 {
+            cfg.tickbase = u32::MAX - crng.range(1, 30) as u32;
+        }
+        let wrap_case = cfg.tickbase != 0;
         writeln!(out, "{}", cfg.header(id)).unwrap();
         let nclients = cfg.clients;
-        let mut g = Gen { rng: crng, sys: Sys::new(cfg), buf: Vec::new(), window_muts: Vec::new(), next_ent: 0, next_pre: vec![0; nclients], val: 1 };
-        if profile == "sys_junk" {
+        let mut g = Gen { rng: crng, sys: Sys::new(cfg), buf: Vec::new(), window_muts: Vec::new(), probe_id: 0, next_ent: 0, next_pre: vec![0; nclients], val: 1 };
+        if wrap_case {
+            g.run_wrap();
+        } else if profile == "sys_junk" {
             // legitimate event ids stay clear of anything short injected strings decode to
             g.val = 3_000_000_000;
             g.run_junk(id, opts.thorough, out);
@@ -1350,6 +1398,24 @@ impl Gen {
             self.event_op();
             return;
         }
+        if profile == "sys_auth" && self.rng.chance(1, 10) {
+            self.probe_id += 1;
+            self.step(format!("probe {}", self.probe_id));
+            return;
+        }
+        if matches!(profile, "sys" | "sys_auth" | "sys_split") && self.rng.chance(1, 25) {
+            // acknowledgements nobody owes: indices of no message in flight, from any connected client
+            // (authorized or not)
+            let c = self.rng.below(self.sys.clients.len() as u64) as usize;
+            if self.sys.clients[c].server_side.is_some() {
+                // indices far above anything in flight: an acknowledgement of a message the client was
+                // really sent and did not receive would be a lie the protocol cannot detect
+                let n = self.rng.range(1, 4);
+                let bytes: Vec<u8> = (0..n).flat_map(|_| { let i = 20000 + self.rng.below(40000) as u16; i.to_le_bytes() }).collect();
+                self.step(format!("junk {c} 0 {}", hex(&bytes)));
+                return;
+            }
+        }
         let n_live = self.sys.alive.iter().filter(|a| **a).count();
         let r = self.rng.below(100);
         if n_live == 0 || (r < 14 && n_live < 8) {
@@ -1470,6 +1536,42 @@ impl Gen {
         }
     }
 
+    /// A server whose tick wraps around while clients are connected.  Every client has received its
+    /// first update message before anything may overtake it (a client that has received nothing
+    /// cannot tell so: known finding F20), nobody reconnects; otherwise loss, delay and reordering
+    /// as in the other cases.
+    fn run_wrap(&mut self) {
+        let profile = "sys";
+        let nclients = self.sys.clients.len();
+        self.step("start".into());
+        for _ in 0..self.rng.range(1, 3) { self.spawn(profile); }
+        for c in 0..nclients { self.step(format!("connect {c}")); }
+        self.step("sframe tick=1".into());
+        self.network(0);
+        for c in 0..nclients { self.step(format!("cframe {c}")); }
+        self.network(0);
+        let steps = self.rng.range(60, 160);
+        let mut mood = *self.rng.pick(&[0u64, 0, 2, 3, 4, 5]);
+        for _ in 0..steps {
+            if self.rng.chance(1, 10) { mood = *self.rng.pick(&[0u64, 0, 2, 3, 4, 5]); }
+            match self.rng.below(100) {
+                0..=39 => self.world_op(profile),
+                40..=69 => {
+                    let tick = self.rng.chance(4, 5) as u8;
+                    self.step(format!("sframe tick={tick}"));
+                    self.network(mood);
+                }
+                70..=92 => {
+                    let c = self.rng.below(nclients as u64);
+                    self.network(mood);
+                    self.step(format!("cframe {c}"));
+                }
+                _ => self.network(5),
+            }
+        }
+        self.step(format!("flush {}", 3 + PERIOD + 1));
+    }
+
     fn run(&mut self, profile: &str) {
         let nclients = self.sys.clients.len();
         if profile == "sys_evt" && self.rng.chance(1, 3) {
@@ -1489,6 +1591,43 @@ impl Gen {
         }
         if self.sys.cfg.auth == "custom" {
             for c in 0..nclients { if self.rng.chance(1, 2) { self.step(format!("auth {c}")); } }
+        }
+        if profile == "sys_split" && self.sys.cfg.sync && self.rng.chance(1, 4) {
+            // relation churn: edges of the hierarchy removed and created in turn, then every member
+            // changes in one tick against a max size that gives each group its own message
+            let base = self.next_ent;
+            let n = self.rng.range(4, 6) as usize;
+            for _ in 0..n {
+                let e = self.next_ent;
+                self.next_ent += 1;
+                let a = self.v();
+                self.step(format!("spawn {e} m=1 A={a}"));
+            }
+            for _ in 0..self.rng.range(2, 3) {
+                let (x, y) = (base + self.rng.below(n as u64) as usize, base + self.rng.below(n as u64) as usize);
+                self.step(format!("rel {x} {y}"));
+            }
+            self.step("sframe tick=1".into());
+            self.network(0);
+            self.step("cframe 0".into());
+            self.network(0);
+            for _ in 0..self.rng.range(3, 7) {
+                let (x, y) = (base + self.rng.below(n as u64) as usize, base + self.rng.below(n as u64) as usize);
+                if self.rng.chance(1, 3) { self.step(format!("unrel {x}")); } else { self.step(format!("rel {x} {y}")); }
+                if self.rng.chance(1, 5) { self.step("sframe tick=1".into()); self.network(0); self.step("cframe 0".into()); self.network(0); }
+            }
+            self.step("sframe tick=1".into());
+            self.network(0);
+            self.step("cframe 0".into());
+            self.network(0);
+            self.step("maxsize 0 1".into());
+            for i in 0..n { let a = self.v(); self.step(format!("mut {} A={a}", base + i)); }
+            self.step("sframe tick=1".into());
+            self.network(5);
+            self.step("cframe 0".into());
+            self.network(0);
+            let m = *self.rng.pick(&[1u64, 40, 120, 200, 1200]);
+            self.step(format!("maxsize 0 {m}"));
         }
         if profile == "sys_split" && self.rng.chance(1, 4) {
             // acknowledged (or timed-out) mutate messages first, then a tick split into one message
@@ -1587,10 +1726,38 @@ impl Gen {
         let mut mood = self.rng.below(nmoods).min(6);
         for _ in 0..steps {
             if self.rng.chance(1, 8) { mood = self.rng.below(nmoods).min(6); }
+            if profile == "sys_auth" && nclients >= 2 && self.rng.chance(1, 15) {
+                // a connection that is not authorized talks on the acknowledgement channel just before
+                // an authorized client's acknowledgement arrives
+                let is_auth = |g: &Gen, c: usize| g.sys.clients[c].server_side.is_some_and(|ce| g.sys.server.world().get_entity(ce).is_ok_and(|e| e.contains::<AuthorizedClient>()));
+                let unauth: Vec<usize> = (0..nclients).filter(|&c| self.sys.clients[c].server_side.is_some() && !is_auth(self, c) && !self.sys.clients[c].panicked).collect();
+                let authd: Vec<usize> = (0..nclients).filter(|&c| is_auth(self, c) && !self.sys.clients[c].panicked).collect();
+                if !unauth.is_empty() && !authd.is_empty() && !self.sys.server_panicked {
+                    let (u, v) = (*self.rng.pick(&unauth), *self.rng.pick(&authd));
+                    if let Some(e) = self.live() {
+                        let k = self.comp_letter(profile);
+                        if let Some(val) = self.comp_val(k, profile) { self.step(format!("mut {e} {k}={val}")); }
+                    }
+                    self.step("sframe tick=1".into());
+                    self.network(0);
+                    self.step(format!("cframe {v}"));
+                    let bytes = self.template("acks");
+                    self.step(format!("junk {u} 0 {}", hex(&bytes)));
+                    self.network(0);
+                    self.step("sframe tick=1".into());
+                    self.network(0);
+                    continue;
+                }
+            }
             match self.rng.below(100) {
                 0..=44 => self.world_op(profile),
                 45..=64 => {
-                    let tick = self.rng.chance(2, 3) as u8;
+                    let mut tick = self.rng.chance(2, 3) as u32;
+                    // the manual tick policy may advance the tick by any amount (varint lengths of the ticks
+                    // on the wire change at 128; the mutate-tick window is 64 wide)
+                    if tick == 1 && (profile != "sys_split" || self.sys.cfg.track) && self.rng.chance(1, 12) {
+                        tick = *self.rng.pick(&[2u32, 3, 60, 64, 65, 100, 127, 128, 129, 200]);
+                    }
                     self.step(format!("sframe tick={tick}"));
                     if tick == 1 {
                         let muts = std::mem::take(&mut self.window_muts);
@@ -1627,7 +1794,7 @@ impl Gen {
                     self.step(format!("cframe {c}"));
                 }
                 85..=88 => self.network(5),
-                89..=90 if profile == "sys" || profile == "sys_evt" || (profile == "sys_auth" && self.sys.cfg.auth != "check") => {
+                89..=90 if profile == "sys" || profile == "sys_evt" || (profile == "sys_split" && self.sys.cfg.track) || (profile == "sys_auth" && self.sys.cfg.auth != "check") => {
                     let c = self.rng.below(nclients as u64);
                     if self.sys.clients[c as usize].server_side.is_some() {
                         let mut left_buffered = None;
@@ -1643,6 +1810,20 @@ impl Gen {
                             self.step("sframe tick=1".into());
                             while !self.sys.clients[c as usize].s2c[1].is_empty() { self.step(format!("deliver {c} s2c 1 0")); }
                             self.step(format!("cframe {c}"));
+                        }
+                        if profile == "sys_evt" && self.rng.chance(1, 3) {
+                            // an event sent long before the session ends: it has left Bevy's event buffer
+                            let id = self.v();
+                            let kind = *self.rng.pick(&["ord", "ord", "trig"]);
+                            if kind == "trig" {
+                                match self.live() { Some(e) => self.step(format!("cev {c} trig {id} {e}")), None => self.step(format!("cev {c} ord {id}")) }
+                            } else {
+                                self.step(format!("cev {c} ord {id}"));
+                            }
+                            for _ in 0..self.rng.range(10, 14) {
+                                self.step(format!("cframe {c}"));
+                                if self.rng.chance(1, 3) { self.network(0); self.step("sframe tick=1".into()); self.network(0); }
+                            }
                         }
                         self.step(format!("disconnect {c}"));
                         if profile == "sys_evt" && self.rng.chance(1, 2) {
@@ -1691,7 +1872,7 @@ impl Gen {
                         self.step(format!("connect {c}"));
                     }
                 }
-                91 if profile == "sys" || profile == "sys_evt" => {
+                91 if profile == "sys" || profile == "sys_evt" || (profile == "sys_split" && self.sys.cfg.track) => {
                     if profile == "sys_evt" && self.rng.chance(1, 2) {
                         // the server stops with events still buffered for the next tick
                         for _ in 0..self.rng.range(1, 3) {
@@ -1701,8 +1882,22 @@ impl Gen {
                         }
                         self.step("sframe tick=0".into());
                     }
+                    // the server stops with a removal (and perhaps a despawn) buffered for the next tick;
+                    // the entity goes away while the server is down
+                    let mut doomed = None;
+                    if self.rng.chance(1, 2) {
+                        if let Some(e) = self.live() {
+                            let k = *self.rng.pick(&["A", "B"]);
+                            self.step(format!("rem {e} {k}"));
+                            self.step("sframe tick=0".into());
+                            doomed = Some(e);
+                        }
+                    }
                     self.step("stop".into());
                     self.step("sframe tick=0".into());
+                    if let Some(e) = doomed {
+                        if self.rng.chance(2, 3) { self.step(format!("despawn {e}")); } else { self.step(format!("mark {e} 0")); }
+                    }
                     for c in 0..nclients { self.step(format!("cframe {c}")); }
                     self.step("start".into());
                     for c in 0..nclients { if self.rng.chance(3, 4) { self.step(format!("connect {c}")); } }
